@@ -20,15 +20,37 @@ class DrawTerms(Terms):
     """Terms in which an RNG draw is the opaque leaf ('draw', kind, block), closure and tuple literals are kept as
     ('agg', kind, key, operands...) and a call of a closure literal is replaced by the closure's (straight-line) body."""
 
+    pvals = None       # local -> term: the value a multiply-defined local has on the path being walked (set by summarize)
+    forced = None      # local -> definition to use for it right now
+
     def of_local(self, l, proj=(), depth=0):
         is_param = l != 0 and l <= self.inst["arg_count"] and not self.body.defs.get(l)
-        d = self.body.single_def(l) if not is_param else None
+        if self.forced and l in self.forced:
+            d = self.forced[l]
+        else:
+            if self.pvals is not None and l in self.pvals and not is_param:
+                from symterm import _apply_projs
+                val = self.pvals[l]
+                pr = [p for p in proj if p["k"] != "deref"]
+                # a field of a tuple / struct literal is the operand it was built from
+                while pr and pr[0]["k"] == "field" and isinstance(val, tuple) and val and val[0] == "agg" and isinstance(pr[0].get("i"), int) and 3 + pr[0]["i"] < len(val) \
+                        and (val[1] == "tuple" or (str(val[1]).startswith("adt:") and not val[2])):
+                    val = val[3 + pr[0]["i"]]
+                    pr = pr[1:]
+                return _apply_projs(self, val, pr, depth)
+            d = self.body.single_def(l) if not is_param else None
         plain = not [p for p in proj if p["k"] != "deref"]
         if d is not None and d[2] == "call":
             kind = draw_kind(self.F, d[3])
             if kind is not None and plain:
                 return ("draw", kind, d[0])
             fn = d[3]["func"].get("fn", {})
+            rp = fn.get("res_path") or fn.get("path") or ""
+            if plain and fn.get("res_krate", fn.get("krate")) == "rand_distr" and not rp.startswith("<") and not fn.get("trait"):
+                # a crate-local associated function: keep its type in the name (`Normal::new` -> Normal_new)
+                segs = [x.split("<")[0] for x in rp.split("::") if x and not x.startswith("<")]
+                if len(segs) >= 2 and segs[-2][:1].isupper() and not segs[-1].startswith("sample"):
+                    return ("call", "%s_%s" % (segs[-2], segs[-1])) + tuple(self.of_operand(a, depth + 1) for a in d[3]["args"])
             if fn.get("method") in ("call", "call_mut", "call_once") and len(d[3]["args"]) == 2 and plain and depth < 20:
                 f_ = self.of_operand(d[3]["args"][0], depth + 1)
                 a_ = self.of_operand(d[3]["args"][1], depth + 1)
@@ -40,6 +62,17 @@ class DrawTerms(Terms):
             rv = d[3]["rv"]
             if rv["k"] == "aggregate" and rv.get("agg") in ("closure", "tuple"):
                 return ("agg", rv["agg"], rv.get("key")) + tuple(self.of_operand(o, depth + 1) for o in rv.get("ops", []))
+            if rv["k"] == "aggregate" and rv.get("agg") == "adt":
+                return ("agg", "adt:" + str(rv.get("path", "?")).rsplit("::", 1)[-1], rv.get("variant_name")) + tuple(self.of_operand(o, depth + 1) for o in rv.get("ops", []))
+        if self.forced and l in self.forced:
+            # evaluate this particular definition: Terms.of_local looks the definition up through body.single_def
+            orig = self.body.single_def
+            dd = self.forced.pop(l)
+            self.body.single_def = lambda x, _o=orig, _l=l, _d=dd: _d if x == _l else _o(x)
+            try:
+                return Terms.of_local(self, l, proj, depth)
+            finally:
+                self.body.single_def = orig
         return Terms.of_local(self, l, proj, depth)
 
 
@@ -105,12 +138,10 @@ def summarize(F, inst, max_paths=400):
     fi = FnInfo(F, inst)
     blocks = inst["blocks"]
     loops = fi.loops
-    header = None
-    body = set()
-    if loops:
-        # the outermost loop
-        h, b, _ = max(loops, key=lambda x: len(x[1]))
-        header, body = h, b
+    headers = {h for h, _, _ in loops}
+    header = min(headers) if headers else None
+    multi = {l for l, ds in T.body.defs.items() if len([d for d in ds if d[2] in ("assign", "call")]) > 1 and l != 0}
+    T.pvals = {}
     atoms = []          # (kind, lhs term, rhs term)  kind in lt/le/eq/call:<name>/variant
     paths = []
     notes = []
@@ -133,7 +164,8 @@ def summarize(F, inst, max_paths=400):
                     if rv["k"] == "use":
                         last = T.of_operand(rv["op"])
                     elif rv["k"] == "aggregate":
-                        last = ("agg", rv.get("agg"), rv.get("variant_name")) + tuple(T.of_operand(o) for o in rv.get("ops", []))
+                        kind_ = "adt:" + str(rv.get("path", "?")).rsplit("::", 1)[-1] if rv.get("agg") == "adt" else rv.get("agg")
+                        last = ("agg", kind_, rv.get("variant_name") if rv.get("agg") == "adt" else rv.get("key")) + tuple(T.of_operand(o) for o in rv.get("ops", []))
                     elif rv["k"] == "binop":
                         from symterm import BIN
                         last = (BIN.get(rv["op"], rv["op"]), T.of_operand(rv["a"]), T.of_operand(rv["b"]))
@@ -156,19 +188,37 @@ def summarize(F, inst, max_paths=400):
                                 last = body
         return last
 
-    def walk(bi, seen, flags, lits, trail, started, opaque=0):
+    def walk(bi, seen, flags, lits, trail, started, opaque=0, pvals=None):
         if len(paths) >= max_paths:
             return
         b = blocks[bi]
         flags = dict(flags)
-        for s in b["stmts"]:
+        pvals = dict(pvals or {})
+        T.pvals = pvals
+        for si, s in enumerate(b["stmts"]):
             if s["k"] == "assign" and not s["place"]["p"]:
                 rv = s["rv"]
+                l_ = s["place"]["l"]
                 if rv["k"] == "use" and rv["op"].get("k") == "const" and rv["op"].get("bits") is not None and F.types[rv["op"]["ty"]]["k"] == "bool":
-                    flags[s["place"]["l"]] = int(rv["op"]["bits"], 16)
+                    flags[l_] = int(rv["op"]["bits"], 16)
                 else:
-                    flags.pop(s["place"]["l"], None)
+                    flags.pop(l_, None)
+                if l_ in multi:
+                    T.forced = {l_: (bi, si, "assign", s)}
+                    try:
+                        val = T.of_local(l_)
+                    finally:
+                        T.forced = None
+                    pvals[l_] = val
         t = b["term"]
+        if t["k"] == "call" and not t["dest"]["p"] and t["dest"]["l"] in multi:
+            l_ = t["dest"]["l"]
+            T.forced = {l_: (bi, "term", "call", t)}
+            try:
+                val = T.of_local(l_)
+            finally:
+                T.forced = None
+            pvals[l_] = val
         trail = trail + [bi]
         if t["k"] == "return":
             paths.append({"lits": lits, "outcome": ("return", ret_term(trail)), "blocks": trail, "opaque": opaque})
@@ -194,6 +244,9 @@ def summarize(F, inst, max_paths=400):
                             continue
                     break
                 lit = None
+                if d is not None and d[2] == "assign" and d[3]["rv"]["k"] == "use" and d[3]["rv"]["op"].get("k") in ("copy", "move") and d[3]["rv"]["op"]["p"] \
+                        and F.types[inst["locals"][d[3]["place"]["l"]]["ty"]]["k"] == "bool":
+                    lit = ("cmp", atom_id("flag", T.of_operand(d[3]["rv"]["op"]), ("const", 1)))
                 if d is not None and d[2] == "call":
                     fn = d[3]["func"].get("fn", {})
                     m = fn.get("method")
@@ -242,18 +295,20 @@ def summarize(F, inst, max_paths=400):
         op2 = opaque + (1 if len(live) > 1 and all(lit is None for _, lit in live) else 0)
         for nxt, lit in live:
             l2 = lits + [lit] if lit is not None else lits
-            if header is not None and nxt == header and started:
-                paths.append({"lits": l2, "outcome": ("continue",), "blocks": trail, "opaque": op2})
-            elif nxt not in seen:
-                walk(nxt, seen | {nxt}, flags, l2, trail, started or nxt == header or header is None, op2)
+            if nxt in seen:
+                if nxt in headers:
+                    paths.append({"lits": l2, "outcome": ("continue",), "blocks": trail, "opaque": op2})
+                continue
+            walk(nxt, seen | {nxt}, flags, l2, trail, True, op2, pvals)
+            T.pvals = pvals
 
-    start = header if header is not None else 0
     import sys
     sys.setrecursionlimit(max(20000, sys.getrecursionlimit()))
-    walk(start, {start}, {}, [], [], True)
+    walk(0, {0}, {}, [], [], True)
+    T.pvals = None
     if len(paths) >= max_paths:
         notes.append("path limit reached")
-    return {"atoms": atoms, "paths": paths, "terms": T, "loop": header is not None, "notes": notes}
+    return {"atoms": atoms, "paths": paths, "terms": T, "loop": bool(headers), "notes": notes}
 
 
 def describe(summary):
